@@ -15,6 +15,7 @@ API
     compile_program(src, out_dir, name, real_black=False, **opts) -> Compiled   (raises CompileError)
     compile_in_subprocess(root_yaml, out_dir, name, cwd, hashseed, real_black, **opts) -> (rc, stderr)
     compile_cli(root_yaml, out_dir, name, cwd=None, extra=()) -> (rc, output)
+    CompileWorker(cwd, hashseed).compile(root, out_dir, name, real_black, **opts) -> (rc, error)   one long-lived process, many closures
     sig_from_parser(parser)                      parser model (the compiler's own record)
     PyWorker().load(path) / py_load_fresh(path)  raw dump of a generated module; py_sig(raw, ref) -> sig
     c_syntax_only(header) -> (ok, stderr);  c_probe(header, ref, skip=core names) -> sig
@@ -272,6 +273,42 @@ with contextlib.redirect_stdout(io.StringIO()), contextlib.redirect_stderr(io.St
 """
 
 
+_COMPILE_WORKER = r"""
+import sys, os, json, io, contextlib, traceback
+out = os.fdopen(os.dup(1), "w")
+sys.stdout = open(os.devnull, "w")
+sys.path.insert(0, sys.argv[1])
+import pyrtma.compile as pc
+sys.excepthook = sys.__excepthook__
+import pyrtma.compilers.python as pyc, subprocess as sp
+BLACK = [False]
+class Stub:
+    def run(self, *a, **k):
+        if BLACK[0]:
+            k.setdefault("stdout", sp.DEVNULL); k.setdefault("stderr", sp.DEVNULL)
+            return sp.run(*a, **k)
+pyc.subprocess = Stub()
+for line in sys.stdin:
+    line = line.strip()
+    if not line:
+        continue
+    job = json.loads(line)
+    BLACK[0] = bool(job["black"])
+    cwd = os.getcwd()
+    try:
+        with contextlib.redirect_stdout(io.StringIO()), contextlib.redirect_stderr(io.StringIO()):
+            pc.compile(defs_files=[job["root"]], out_dir=job["out"], out_name=job["name"], python=True, javascript=True,
+                       matlab=True, c_lang=True, info=True, combined=True, **job["opts"])
+        r = {"rc": 0, "error": None}
+    except BaseException as e:
+        r = {"rc": 1, "error": type(e).__name__ + ": " + str(e)[:300]}
+    finally:
+        os.chdir(cwd)
+    out.write(json.dumps(r) + "\n")
+    out.flush()
+"""
+
+
 def _env(hashseed="0"):
     env = dict(os.environ)
     env["PYTHONPATH"] = REPO_SRC + os.pathsep + env.get("PYTHONPATH", "")
@@ -290,6 +327,28 @@ def compile_in_subprocess(root, out_dir, name, cwd, hashseed, real_black=False, 
     except subprocess.TimeoutExpired:
         raise ToolTimeout("compile subprocess")
     return p.returncode, p.stderr
+
+
+class CompileWorker:
+    """One long-lived interpreter that compiles closure after closure (so that state left behind by an earlier
+    compilation of the same process can show).  compile(root, out_dir, name, real_black, **opts) -> (rc, error)."""
+
+    def __init__(self, cwd="/tmp", hashseed="0"):
+        self.cwd, self.hashseed = cwd, hashseed
+        self.w = None
+        self.count = 0
+
+    def compile(self, root, out_dir, name, real_black=False, **opts):
+        if self.w is None:
+            self.w = _LineWorker([PY, "-u", "-W", "ignore", "-c", _COMPILE_WORKER, REPO_SRC], env=_env(self.hashseed), cwd=self.cwd)
+        r = self.w.ask({"root": root, "out": out_dir, "name": name, "black": bool(real_black), "opts": opts}, timeout=TOOL_TIMEOUT * 2)
+        self.count += 1
+        return r["rc"], r["error"]
+
+    def close(self):
+        if self.w is not None:
+            self.w.close()
+            self.w = None
 
 
 def compile_cli(root, out_dir, name, cwd=None, extra=(), hashseed="0"):
@@ -1023,7 +1082,10 @@ def _js_fields(sh):
 
 
 def _js_val(sh):
-    return sh.get("v") if sh and sh["k"] in ("num", "str") else None
+    v = sh.get("v") if sh and sh["k"] in ("num", "str") else None
+    if isinstance(v, int) and not isinstance(v, bool) and abs(v) > 2 ** 53:
+        v = float(v)  # a JS number is a double; JSON prints large ones without exponent (shortest digits padded with zeros)
+    return v
 
 
 def js_sig(raw, ref):
@@ -1034,7 +1096,7 @@ def js_sig(raw, ref):
     consts = raw.get("constants", {})
     for n in ref["constants"]:
         if n in consts and consts[n]["k"] == "num":
-            sig["constants"][n] = consts[n]["v"]
+            sig["constants"][n] = _js_val(consts[n])
     for n in ref["strings"]:
         if n in consts and consts[n]["k"] == "str":
             sig["strings"][n] = consts[n]["v"]
@@ -1440,12 +1502,18 @@ def project(t, lang):
 
 
 def _close(a, b):
-    if isinstance(a, float) or isinstance(b, float):
-        try:
-            return a == b or abs(a - b) <= 1e-12 * max(abs(a), abs(b))
-        except TypeError:
-            return False
-    return a == b and type(a) is type(b) or (a == b and not isinstance(a, (bool, str)) and not isinstance(b, (bool, str)))
+    """Exact equality of two constants (every back end prints Python's shortest round-trip repr of a double, so the
+    doubles must be identical; 2.0 and 2 are the same number - the int/float distinction is checked separately)."""
+    if isinstance(a, bool) or isinstance(b, bool) or isinstance(a, str) or isinstance(b, str):
+        return type(a) is type(b) and a == b
+    if a is None or b is None:
+        return a is b
+    try:
+        if a != a and b != b:
+            return True
+        return a == b
+    except TypeError:
+        return False
 
 
 def _diff_fields(ref, oth, rf, of, lang, where, out, depth=0):
@@ -1505,6 +1573,9 @@ def diff_sigs(ref, oth, names=None, tables=("constants", "strings", "mt", "mid",
                 out.append((f"{tb}-missing", n, f"{lang} output has no {tb} entry {n} (reference value {v!r})"))
             elif not _close(v, oth[tb][n]):
                 out.append((f"{tb}-value", n, f"reference {v!r}, {lang} {oth[tb][n]!r}"))
+            elif tb == "constants" and lang in ("python", "c", "parser") and isinstance(v, float) != isinstance(oth[tb][n], float):
+                # Python and C distinguish 2 from 2.0 (annotation / type of the macro's value)
+                out.append((f"{tb}-type", n, f"reference {v!r} ({type(v).__name__}), {lang} {oth[tb][n]!r} ({type(oth[tb][n]).__name__})"))
     for n, d in ref["defs"].items():
         if n in skip or (names is not None and n not in names):
             continue
